@@ -3,7 +3,7 @@ From Coq Require Import List Arith ZArith.
 Import ListNotations.
 From Exmex.Model Require Import Base EvalBinary Lexer Flat.
 From Exmex.Spec Require Import RefSem.
-From Exmex.Proofs Require Import ChainMachine SortedRef EvalBinaryCorrect FlatEval WalkSim C01Main C01Vars Accept LexSpaced.
+From Exmex.Proofs Require Import ChainMachine SortedRef EvalBinaryCorrect FlatEval WalkSim C01Main C01Vars Accept LexSpaced LexFlex.
 Open Scope nat_scope.
 
 (* The main theorem.  For EVERY data type (carrier C), every operator table whose binary priorities lie in 0..99,
@@ -90,6 +90,36 @@ Proof.
   exists fx, v. unfold parse_wo_compile. rewrite Htok. cbn [bind]. repeat split; assumption.
 Qed.
 
+(* ... and with free spacing (Proofs/LexFlex.v): every token of the rendering followed by any number of spaces, also none,
+   a number or an operator name being followed by a terminator (space, parenthesis, opening brace) or the end of the text *)
+Theorem C01_text_entry_point_free_spacing :
+  forall (D : Type) (C : carrier D) (tb : optable) (is_literal : str -> option nat) (R : D -> D -> Prop),
+  wf_table tb = true ->
+  (forall a, R a a) -> (forall a b, R a b -> R b a) -> (forall a b c, R a b -> R b c -> R a c) ->
+  (forall k a a' b b', R a a' -> R b b' -> R (binf C k a b) (binf C k a' b')) ->
+  (forall k a a', R a a' -> R (unf C k a) (unf C k a')) ->
+  (forall o, comm_of tb o = true -> forall a b c, R (binf C o (binf C o a b) c) (binf C o a (binf C o b c))) ->
+  forall (c : chain (D:=D)) (gaps : list nat) (vals : list D),
+  wf_chain tb c = true -> length gaps = length (flatten c) ->
+  Forall (flexable C tb is_literal) (flatten c) -> gaps_ok C tb (combine (flatten c) gaps) ->
+  length vals = length (find_parsed_vars (flatten c)) ->
+  tokenize C tb is_literal (ftext C tb (combine (flatten c) gaps)) = Ok (flatten c) /\
+  exists fx v,
+    parse_wo_compile C tb true is_literal (ftext C tb (combine (flatten c) gaps)) = Ok fx /\
+    fvars fx = find_parsed_vars (flatten c) /\
+    eval_flat C fx vals = Ok v /\
+    R v (ref_chain C tb (find_parsed_vars (flatten c)) vals c).
+Proof.
+  intros D C tb is_literal R Hwf Hr Hs Ht Hb Hu Ha c gaps vals Hwfc Hgl Hlex Hg Hlen.
+  assert (Em : forall (l : list (token D)) (gs : list nat), length gs = length l -> map fst (combine l gs) = l).
+  { clear. induction l as [|t l IH]; intros gs Hgl; [reflexivity|]. destruct gs as [|g gs]; [discriminate|]. cbn [combine map fst]. f_equal. apply IH. cbn in Hgl. congruence. }
+  specialize (Em (flatten c) gaps Hgl).
+  pose proof (tokenize_flex C tb is_literal (combine (flatten c) gaps) ltac:(rewrite Em; exact Hlex) Hg) as Htok. rewrite Em in Htok. split; [exact Htok|].
+  destruct (C01_token_entry_point D C tb R Hwf Hr Hs Ht Hb Hu Ha c (ftext C tb (combine (flatten c) gaps)) vals Hwfc Hlen) as (_ & fx & v & H1 & H2 & H3 & H4).
+  exists fx, v. unfold parse_wo_compile. rewrite Htok. cbn [bind]. repeat split; assumption.
+Qed.
+
+
 (* when the flagged operators really are associative the two values are EQUAL *)
 Corollary C01_exact_when_flags_are_sound :
   forall (D : Type) (C : carrier D) (tb : optable),
@@ -162,3 +192,4 @@ Print Assumptions C01_exact_when_flags_are_sound.
 Print Assumptions C01_free_terms.
 Print Assumptions C01_any_flat_expression_is_precedence.
 Print Assumptions C01_text_entry_point.
+Print Assumptions C01_text_entry_point_free_spacing.
